@@ -59,14 +59,14 @@ func genC13Text(t *rapid.T, label string, forced string) c13Text {
 }
 
 type c13Case struct {
-	Name      c13Text  `json:"profile_name"`
-	VName     c13Text  `json:"validation_name"`
-	Message   c13Text  `json:"message"`
-	Holders   []string `json:"placeholders"` // property local names used in placeholders, in order of appearance
-	Value     c13Text  `json:"list_value"`
-	ListKind  string   `json:"list_kind"` // in | containsAll | containsSome
-	NodeProps map[string]m.Lit `json:"node_props"` // values of the reported node for placeholder properties (absent = null)
-	ProfileText string `json:"profile_text"`
+	Name        c13Text          `json:"profile_name"`
+	VName       c13Text          `json:"validation_name"`
+	Message     c13Text          `json:"message"`
+	Holders     []string         `json:"placeholders"` // property local names used in placeholders, in order of appearance
+	Value       c13Text          `json:"list_value"`
+	ListKind    string           `json:"list_kind"`  // in | containsAll | containsSome
+	NodeProps   map[string]m.Lit `json:"node_props"` // values of the reported node for placeholder properties (absent = null)
+	ProfileText string           `json:"profile_text"`
 }
 
 var placeholderRe = regexp.MustCompile(`\{\{\s*([\w-]+\.[\w-]+)\s*}}`)
